@@ -5,7 +5,7 @@ Every label, invariant, initialiser and argument carries a site-unique
 constant so that any mis-attachment shows in the comparison."""
 import xmlgen as X
 
-GDECL = "const int GLO = 1; const int GHI = 3; typedef int[-2, GHI] gsel_t; int g1 = 901; int g2; int ga; int gb; int gc; clock gx; chan c; broadcast chan bc; clock gxs[2]; clock gys[2];"
+GDECL = "const int GLO = 1; const int GHI = 3; typedef int[-2, GHI] gsel_t; int g1 = 901; int g2; int ga; int gb; int gc; clock gx; chan c; broadcast chan bc; clock gxs[2]; clock gys[2]; urgent chan uc; urgent broadcast chan ubc; urgent broadcast chan ubcs[2]; meta int gm; const bool gk = true; double gd;"
 
 
 class Loc:
@@ -58,13 +58,16 @@ class Model:
 
 
 PARAM_TEXT = {"value": "int %s", "ref": "int &%s", "const": "const int %s", "range": "int[0,1] %s",
-              "constref": "const int &%s", "constrangeref": "const int[0,2000] &%s", "constbool": "const bool %s"}
+              "constref": "const int &%s", "constrangeref": "const int[0,2000] &%s", "constbool": "const bool %s",
+              "ubchanref": "urgent broadcast chan &%s", "bchanref": "broadcast chan &%s", "uchanref": "urgent chan &%s"}
+CHAN_ARG = {"ubchanref": "ubc", "bchanref": "bc", "uchanref": "uc"}
 PARAM_TYPE = {"value": "(RANGE (INT) <(CONSTANT:INT -32768)> <(CONSTANT:INT 32767)>)",
               "ref": "(REF (RANGE (INT) <(CONSTANT:INT -32768)> <(CONSTANT:INT 32767)>))",
               "const": "(CONSTANT (INT))",
               "range": "(RANGE (INT) <(CONSTANT:INT 0)> <(CONSTANT:INT 1)>)",
               "constref": "(REF (CONSTANT (INT)))", "constrangeref": "(REF (CONSTANT (RANGE (INT) <(CONSTANT:INT 0)> <(CONSTANT:INT 2000)>)))",
-              "constbool": "(CONSTANT (BOOL))"}
+              "constbool": "(CONSTANT (BOOL))",
+              "ubchanref": "(REF (BROADCAST (URGENT (CHANNEL))))", "bchanref": "(REF (BROADCAST (CHANNEL)))", "uchanref": "(REF (URGENT (CHANNEL)))"}
 # labels are parsed in document order, so a select label (a declaration) stays first; the others permute
 ORDERS = [["select", "guard", "synchronisation", "assignment", "probability"],
           ["select", "probability", "assignment", "synchronisation", "guard"],
@@ -328,10 +331,14 @@ def expected(m, xml=True):
         d["dyn_templates"].append({"name": "DW", "params": [["dk", DW_PARAM_TYPE]] if m.dyn[1] else [], "unbound": 1 if m.dyn[1] else 0,
                                    "locals": [["dl", "(CONSTANT:INT 77)"]], "locations": ["DW_A", "DW_B"], "init": "DW_A",
                                    "edges": [["DW_A", "DW_B", dyn_guard(m)[1]]], "is_defined": True})
-    d["globals_tail"] = [["g1", "(CONSTANT:INT 901)"], ["g2", "()"], ["ga", "()"], ["gb", "()"], ["gc", "()"], ["gx", "()"],
-                         ["c", "()"], ["bc", "()"], ["gxs", "()"], ["gys", "()"]]
+    rng = "(RANGE (INT) <(CONSTANT:INT -32768)> <(CONSTANT:INT 32767)>)"
+    arr2 = "(ARRAY %s (RANGE (INT) <(CONSTANT:INT 0)> <(MINUS (CONSTANT:INT 2) (CONSTANT:INT 1))>))"
+    d["globals_tail"] = [["g1", "(CONSTANT:INT 901)", rng], ["g2", "()", rng], ["ga", "()", rng], ["gb", "()", rng], ["gc", "()", rng], ["gx", "()", "(CLOCK)"],
+                         ["c", "()", "(CHANNEL)"], ["bc", "()", "(BROADCAST (CHANNEL))"], ["gxs", "()", arr2 % "(CLOCK)"], ["gys", "()", arr2 % "(CLOCK)"],
+                         ["uc", "()", "(URGENT (CHANNEL))"], ["ubc", "()", "(BROADCAST (URGENT (CHANNEL)))"], ["ubcs", "()", arr2 % "(BROADCAST (URGENT (CHANNEL)))"],
+                         ["gm", "()", "(SYSTEM_META %s)" % rng], ["gk", "(CONSTANT:BOOL 1)", "(CONSTANT (BOOL))"], ["gd", "()", "(DOUBLE)"]]
     if m.gextra is not None:
-        d["globals_tail"].append(["gextra", "(CONSTANT:INT %d)" % m.gextra])
+        d["globals_tail"].append(["gextra", "(CONSTANT:INT %d)" % m.gextra, rng])
     tp = {}
     for t in m.tpls:
         tj = {"name": t.name,
@@ -395,7 +402,7 @@ def project(dump, m):
     gv = dump["globals"]["vars"]
     names = [v["name"] for v in gv]
     start = names.index("g1") if "g1" in names else len(names)
-    d["globals_tail"] = [[v["name"], v["init"]] for v in gv[start:]]
+    d["globals_tail"] = [[v["name"], v["init"], v.get("type")] for v in gv[start:]]
     for t in dump["templates"]:
         tj = {"name": t["name"], "params": [[p["name"], p["type"]] for p in t["params"]], "unbound": t["unbound"],
               "locals": [[v["name"], v["init"]] for v in t["decl"]["vars"]],
@@ -497,12 +504,14 @@ def build(choose, common=False, bp_base=True):
         t = Tpl("T%d" % (ti + 1))
         base = 1000 * (ti + 1)
         if ti == 0:
-            pv = choose(8, "T1.params")
+            pv = choose(10, "T1.params")
             t.params = [[("value", "p1"), ("ref", "p2")], [], [("value", "p1")], [("const", "p1"), ("ref", "p2")],
                         [("ref", "p1"), ("value", "p2"), ("const", "p3")],
                         # references to constants (their arguments are constant expressions here) next to ordinary ones
                         [("constref", "p1"), ("ref", "p2")], [("constrangeref", "p1"), ("constref", "p2"), ("value", "p3")],
-                        [("constbool", "p1"), ("constref", "p2"), ("ref", "p3")]][pv]
+                        [("constbool", "p1"), ("constref", "p2"), ("ref", "p3")],
+                        # channel references with one and with two prefixes
+                        [("ubchanref", "p1"), ("bchanref", "p2"), ("value", "p3")], [("uchanref", "p1"), ("ref", "p2")]][pv]
         elif ti == 1:
             pv = choose(3, "T2.params")
             t.params = [[], [("range", "q1")], [("value", "q1")]][pv]
@@ -623,7 +632,7 @@ def build(choose, common=False, bp_base=True):
     def args_for(params, base, voff=0):
         out = []
         for i, (k, n) in enumerate(params):
-            out.append(("v", ["ga", "gb", "gc"][(i + voff) % 3]) if k == "ref" else ("k", base + i))
+            out.append(("v", CHAN_ARG[k]) if k in CHAN_ARG else ("v", ["ga", "gb", "gc"][(i + voff) % 3]) if k == "ref" else ("k", base + i))
         return out
 
     procs = []
@@ -631,16 +640,16 @@ def build(choose, common=False, bp_base=True):
         if style == 2 and len(t1.params) >= 1:
             # partial instantiation: bind all but the first parameter, leave one formal
             k0 = t1.params[0][0]
-            formal = [("const" if k0 != "ref" else "ref", "f1")]
+            formal = [(k0 if k0 in CHAN_ARG else "const" if k0 != "ref" else "ref", "f1")]
             rest = args_for(t1.params, 1801)[1:]
             m.insts.append(("Q", formal, "T1", [("v", "f1")] + rest))
-            m.insts.append(("P1", [], "Q", [("v", "ga") if k0 == "ref" else ("k", 1811)]))
-            m.insts.append(("P2", [], "Q", [("v", "gb") if k0 == "ref" else ("k", 1812)]))
+            m.insts.append(("P1", [], "Q", [("v", CHAN_ARG[k0]) if k0 in CHAN_ARG else ("v", "ga") if k0 == "ref" else ("k", 1811)]))
+            m.insts.append(("P2", [], "Q", [("v", CHAN_ARG[k0]) if k0 in CHAN_ARG else ("v", "gb") if k0 == "ref" else ("k", 1812)]))
         else:
             m.insts.append(("P1", [], "T1", args_for(t1.params, 1801)))
             a2 = args_for(t1.params, 1851, 1)
             if style == 1:
-                a2 = [("v", "gc") if a[0] == "v" else a for a in a2]
+                a2 = [("v", "gc") if a[0] == "v" and a[1] not in CHAN_ARG.values() else a for a in a2]
             m.insts.append(("P2", [], "T1", a2))
         procs += ["P1", "P2"]
     else:
